@@ -238,6 +238,14 @@ package canary
 //@   ensures [key] result == (unbox(v1, *KnockGroup).Protocol == unbox(v2, *KnockGroup).Protocol && str(unbox(v1, *KnockGroup).SourceHardwareAddr) == str(unbox(v2, *KnockGroup).SourceHardwareAddr) && str(unbox(v1, *KnockGroup).DestinationHardwareAddr) == str(unbox(v2, *KnockGroup).DestinationHardwareAddr) && ipeq(unbox(v1, *KnockGroup).SourceIP, unbox(v2, *KnockGroup).SourceIP) && ipeq(unbox(v1, *KnockGroup).DestinationIP, unbox(v2, *KnockGroup).DestinationIP))
 //@   modifies nothing
 //
+// The detector records a knock only in a group that is a member of the detector's set at that moment
+// (a group outside the set is never visited by the reporting tick: its ports would never be reported):
+// every Add in the detector is either on the set itself or on the Knocks of a current member.
+//@ func (*Canary).knockDetector
+//@   check callpre
+//@   modifies *
+//@   callpre (*UniqueSet).Add: us == caller.knocks || (exists j int :: 0 <= j && j < len(caller.knocks.items) && typeis(caller.knocks.items[j], *KnockGroup) && unbox(caller.knocks.items[j], *KnockGroup).Knocks == us)
+//
 // Accept never fails (the server's accept loop panics on an error; property C01).
 //@ func (*Canary).Accept
 //@   check safety
